@@ -28,6 +28,7 @@ import numpy as np
 from qstatic.alg import Poly, SQ, P, is_unknown, UNKNOWN
 from qstatic.dom_sym import sym_quat, sym_real, arrays_same, first_diff, mk, SymArr, wrap
 from qstatic.interp import RepoRaise, ModelError, PathExplorer
+from qstatic.scenario import known_zero_keys
 from .common import new_interp, planes_of, quat_from_planes, run_guarded, short
 from .common_nc import cond_parts, cond_atoms
 
@@ -399,6 +400,13 @@ def run(ctx):
                 continue
             ok = False
             order = range(n) if lower else range(n - 1, -1, -1)
+            # off-diagonal entries the analysed path has established to be exactly zero (a "nothing to subtract" shortcut taken in an
+            # alternative scenario) are zero in the reference as well
+            zk = frozenset(known_zero_keys(it.decision_log)) if ctx.scenario else frozenset()
+
+            def Tz(i, j):
+                t = T[i, j]
+                return SQ() if (zk and all(c_.is_zero() or c_.key() in zk for c_ in t.c)) else t
             for reg in [0] + _tiny():
                 Xr = mk((n, k), "quat")
                 for i in order:
@@ -406,7 +414,7 @@ def run(ctx):
                         s = SQ()
                         js = range(i) if lower else range(i + 1, n)
                         for j in js:
-                            s = s + T[i, j] * Xr[j, c]
+                            s = s + Tz(i, j) * Xr[j, c]
                         d_ = T[i, i]
                         den = d_.norm2() + reg
                         inv = SQ(*[cc * den.inverse() for cc in d_.conjugate().c])
